@@ -36,7 +36,8 @@ META = {
              'ied close(), HTTP 403/404/500/503 replies; cli_faults: every'
              ' I/O call of the documented command-line steps x errno, a su'
              'ccess status requires the fault-free destination.'
-             " Round 12: http_faults with per-shard layouts, outdated legacy files and the statuses 400/401/410/429/502."),
+             " Round 12: http_faults with per-shard layouts, outdated legacy files and the statuses 400/401/410/429/502."
+             " Round 13: write_handled_close - the caller handles the reported failure of one chunk, stores the others and closes; accepted chunks must be there, the refused one absent, complete or detectably invalid."),
     "trusted_base": ["vlib/faultfs.py: crash model = process killed between "
                      "(or inside) application-level write calls, earlier "
                      "closed files intact; self-checked on every scenario by "
@@ -94,6 +95,7 @@ def scenarios(draw):
                                    "store_no_overwrite"]))
     else:
         op = draw(st.sampled_from(["write_close", "write_close",
+                                   "write_handled_close",
                                    "fetch_chunk", "fetch_file"]))
     return {"kind": kind, "dtype": dtype, "channels": channels,
             "encoding": draw(st.sampled_from(encs)), "size": size,
@@ -173,6 +175,11 @@ def same(sc, got, want):
         d = np.abs(got.astype(int) - want.astype(int))
         return d.max() <= JPEG_MAX and d.mean() <= JPEG_MEAN
     return got.tobytes() == want.tobytes()
+
+
+def DataAccessError_():
+    from neuroglancer_scripts.accessor import DataAccessError
+    return DataAccessError
 
 
 class Scenario:
@@ -267,6 +274,26 @@ class Scenario:
             return ("exists", pio.accessor.file_exists("info"))
         if op == "exists_missing":
             return ("exists", pio.accessor.file_exists("no/such"))
+        if op == "write_handled_close":
+            # a caller that handles the failure of one chunk (logs it, goes
+            # on with the others) and then closes the writer
+            new = []
+            order = list(self.grid)
+            rng = np.random.default_rng(sc["seed"])
+            rng.shuffle(order)
+            self.accepted = []
+            self.failed = []
+            for i, cc in enumerate(order):
+                arr = content(sc, cc, 1000 + i)
+                new.append(("s1", cc, arr))
+                try:
+                    pio.write_chunk(arr, "s1", cc)
+                except (DataAccessError_(), OSError):
+                    self.failed.append(("s1", cc, arr))
+                    continue
+                self.accepted.append(("s1", cc, arr))
+            pio.accessor.close()
+            return ("stored", new)
         if op == "write_close":
             new = []
             order = list(self.grid)
@@ -398,6 +425,39 @@ def check_scenario(ctx, sc):
                 site = "call %d/%d (%s %s)" % (
                     k, len(calls), ckind, os.path.relpath(cpath, w)
                     if cpath.startswith(w) else os.path.basename(cpath))
+                if exc is None and sc["op"] == "write_handled_close" and \
+                        S.failed:
+                    # the failure was reported (by the write_chunk call the
+                    # caller handled) and close() returned normally: every
+                    # chunk that write_chunk accepted must be there, and the
+                    # refused one absent, complete or detectably invalid
+                    pio_chk = ds.open_dataset(w)
+                    for key, cc, arr in list(S.accepted):
+                        try:
+                            got = pio_chk.read_chunk(key, cc)
+                            okc = same(sc, got, arr)
+                        except Exception:
+                            okc = False
+                        if not okc:
+                            ctx.fail("%s at %s: write_chunk reported the "
+                                     "failure for chunk %s, the caller went "
+                                     "on and close() returned normally, but "
+                                     "chunk %s %s, which write_chunk had "
+                                     "accepted, is missing or wrong [%s]" % (
+                                         ename, site, S.failed[0][1], key,
+                                         cc, describe(sc)))
+                    for key, cc, arr in S.failed:
+                        try:
+                            got = pio_chk.read_chunk(key, cc)
+                        except Exception:
+                            continue
+                        if not same(sc, got, arr):
+                            ctx.fail("%s at %s: chunk %s %s, whose write was "
+                                     "refused, decodes to WRONG voxel values "
+                                     "after close() [%s]" % (
+                                         ename, site, key, cc, describe(sc)))
+                    S.check_previous(w, "%s at %s" % (ename, site))
+                    continue
                 if exc is None:
                     ctx.fail("%s injected at %s: the operation returned "
                              "normally as if it had succeeded [%s]" % (
